@@ -19,7 +19,7 @@ ASSUMPTIONS = ["the consistent / contradictory verdict follows the property text
 EVAL_COUNTER = "evaluations"
 REQUIRED = {"quick": {"validations": 3000, "accepted_ok": 500, "rejected_ok": 500, "malformed_rejected": 19,
                       "batches_checked": 300, "batches_with_pairs": 80, "batches_partial_pairs": 20},
-            "thorough": {"validations": 100000, "batches_checked": 8000}}
+            "thorough": {"validations": 40000, "batches_checked": 8000}}
 SHARD_TIMEOUT = {"quick": 900, "thorough": 5400}
 
 RELABELS = [[0, 1, 2, 3], [3, 1, 0, 2], [5, 7, 9, 100], [40, 2, 17, 3], [1, 2, 3, 4]]
